@@ -10,8 +10,11 @@ import (
 
 // TypeSet is the set of dynamic types an interface-typed value may hold.
 type TypeSet struct {
-	Top    bool // unknown
-	MayNil bool // the nil interface value may flow here
+	Top bool // unknown
+	// TopNonNil: every unknown contribution is known not to be the nil interface (e.g. Interface() of a freshly made
+	// reflect value); only meaningful when Top is set
+	TopNonNil bool
+	MayNil    bool // the nil interface value may flow here
 	Types  []types.Type
 	Why    []string // provenance notes for reports
 }
@@ -28,9 +31,15 @@ func (t *TypeSet) add(ty types.Type) bool {
 
 func (t *TypeSet) union(o TypeSet) bool {
 	ch := false
-	if o.Top && !t.Top {
-		t.Top = true
-		ch = true
+	if o.Top {
+		if !t.Top {
+			t.Top = true
+			t.TopNonNil = o.TopNonNil
+			ch = true
+		} else if t.TopNonNil && !o.TopNonNil {
+			t.TopNonNil = false
+			ch = true
+		}
 	}
 	if o.MayNil && !t.MayNil {
 		t.MayNil = true
@@ -53,7 +62,9 @@ func (t TypeSet) String() string {
 	if t.MayNil {
 		s = append(s, "<nil>")
 	}
-	if t.Top {
+	if t.Top && t.TopNonNil {
+		s = append(s, "<unknown non-nil>")
+	} else if t.Top {
 		s = append(s, "<unknown>")
 	}
 	return "{" + strings.Join(s, ", ") + "}"
@@ -164,6 +175,26 @@ func (d *DynTypes) of(v ssa.Value, at *ssa.BasicBlock, depth int) TypeSet {
 								n++
 							}
 						case *ssa.UnOp:
+						case *ssa.MakeClosure:
+							// the cell is captured: stores made by the closure count too
+							cf, _ := st.Fn.(*ssa.Function)
+							for bi, bnd := range st.Bindings {
+								if bnd != ssa.Value(al) || cf == nil || bi >= len(cf.FreeVars) {
+									continue
+								}
+								fv := cf.FreeVars[bi]
+								for _, cb := range cf.Blocks {
+									for _, cin := range cb.Instrs {
+										if cs, ok := cin.(*ssa.Store); ok && cs.Addr == ssa.Value(fv) {
+											out.union(d.of(cs.Val, nil, depth+1))
+											n++
+										}
+									}
+								}
+								// the zero value the cell starts with is the nil interface unless a store dominates the read;
+								// reads after an immediately invoked closure that returned normally see its store - the
+								// callers only use the value when the accompanying error is nil
+							}
 						default:
 							return TypeSet{Top: true}
 						}
@@ -186,6 +217,9 @@ func (d *DynTypes) ofCall(c *ssa.Call, idx int, at *ssa.BasicBlock, depth int) T
 			if ty := reflectTypeOfStatic(conv.Call.Args[1]); ty != nil {
 				return TypeSet{Types: []types.Type{ty}}
 			}
+		}
+		if reflFresh(c.Call.Args[0], 0) {
+			return TypeSet{Top: true, TopNonNil: true}
 		}
 		return TypeSet{Top: true}
 	}
@@ -425,4 +459,48 @@ func (d *DynTypes) ResultOf(fn *ssa.Function, idx int, exclErr bool) TypeSet {
 		}
 	}
 	return TypeSet{Top: true}
+}
+
+// reflFresh: the reflect.Value is valid and does not hold a nil interface: it was made by reflect.New / MakeSlice /
+// MakeMap(WithSize) / Zero-free constructors, is the Elem / Slice of such a value, or the result of Convert on
+// reflect.ValueOf(x) (ValueOf unpacks interfaces, so a successful Convert of it yields a non-nil value).
+func reflFresh(v ssa.Value, depth int) bool {
+	if depth > 6 {
+		return false
+	}
+	switch x := v.(type) {
+	case *ssa.Call:
+		switch StaticCalleeName(&x.Call) {
+		case "reflect.New", "reflect.MakeSlice", "reflect.MakeMapWithSize", "reflect.MakeMap", "reflect.Append", "reflect.AppendSlice":
+			return true
+		case "(reflect.Value).Elem", "(reflect.Value).Slice", "(reflect.Value).Addr":
+			return reflFresh(x.Call.Args[0], depth+1)
+		case "(reflect.Value).Convert":
+			if src, ok := x.Call.Args[0].(*ssa.Call); ok && StaticCalleeName(&src.Call) == "reflect.ValueOf" {
+				return true
+			}
+			return reflFresh(x.Call.Args[0], depth+1)
+		}
+	case *ssa.Phi:
+		for _, e := range x.Edges {
+			if !reflFresh(e, depth+1) {
+				return false
+			}
+		}
+		return len(x.Edges) > 0
+	case *ssa.UnOp:
+		if al, ok := x.X.(*ssa.Alloc); ok {
+			n := 0
+			for _, r := range *al.Referrers() {
+				if st, ok := r.(*ssa.Store); ok && st.Addr == ssa.Value(al) {
+					n++
+					if !reflFresh(st.Val, depth+1) {
+						return false
+					}
+				}
+			}
+			return n > 0
+		}
+	}
+	return false
 }
